@@ -140,6 +140,15 @@ def real_scenario(ctx, rng: random.Random, api: str, peer_mode: str) -> str | No
                     return
                 state["read"] += len(d)
 
+        def in_flight() -> bool:
+            # a reader is draining the peer socket and user-space still holds bytes the kernel has not accepted
+            if rd is not None and not rd.done() and inner.get_write_buffer_size() > 0:
+                return True
+            # the peer closed / reset: the error event is on its way to the (not yet closing) transport
+            return "lost_it" in state and not inner.is_closing() and any(not t.done() for t in tasks)
+
+        rd = None
+        loop.io_expected = in_flight
         if peer_mode == "reads":
             rd = asyncio.ensure_future(read_all())
             await asyncio.wait(tasks, timeout=600)
@@ -163,6 +172,10 @@ def real_scenario(ctx, rng: random.Random, api: str, peer_mode: str) -> str | No
             rd = asyncio.ensure_future(read_all())
             await asyncio.wait(tasks, timeout=600)
         state["pending_after"] = [i for i, t in enumerate(tasks) if not t.done()]
+        state["buffer_at_end"] = inner.get_write_buffer_size()
+        state["real_stalls"] = loop.real_stalls
+        state["real_waits"] = loop.real_waits
+        loop.io_expected = None
         for t in tasks:
             t.cancel()
         await asyncio.gather(*tasks, return_exceptions=True)
@@ -189,6 +202,10 @@ def real_scenario(ctx, rng: random.Random, api: str, peer_mode: str) -> str | No
     except vloop.Quiescent as exc:
         return f"deadlock: {exc}"
     ctx.count("returns_checked", sum(1 for e in log if e[0] == "returned"))
+    if state.get("real_waits"):
+        ctx.count("real_io_waits_before_time_jump", state["real_waits"])
+    if state.get("real_stalls"):
+        ctx.count("real_io_stalls", state["real_stalls"])
     if state.get("parked"):
         ctx.count("senders_suspended", state["parked"])
     # (1) a send that returned must have left nothing in the user-space write buffer
